@@ -379,6 +379,47 @@ func vfConcurrent(en *vfStressEnv, s *vfScen, o *vfScenOut) {
 	en.nw.drain()
 	var wg sync.WaitGroup
 	stopAll := make(chan struct{})
+	// the SMF that owns session 1 answers Session Report Requests: promptly, about one retransmission
+	// time-out later, or not at all - and counts the distinct downlink data reports it receives
+	var seenMu sync.Mutex
+	seen := map[int]int{}
+	respDone := make(chan struct{})
+	respStop := make(chan struct{})
+	go func() {
+		defer close(respDone)
+		c := en.nw.conns["p1"]
+		r := rand.New(rand.NewSource(s.Seed*131 + 7))
+		buf := make([]byte, 65536)
+		upf := &net.UDPAddr{IP: net.ParseIP(en.nw.upf), Port: 8805}
+		for {
+			select {
+			case <-respStop:
+				_ = c.SetReadDeadline(time.Time{})
+				return
+			default:
+			}
+			_ = c.SetReadDeadline(time.Now().Add(20 * time.Millisecond))
+			n, _, err := c.ReadFromUDP(buf)
+			if err != nil || n < 16 || buf[1] != 56 {
+				continue
+			}
+			ab := en.x.abstract("p1", append([]byte{}, buf[:n]...))
+			if len(ab.DLDR) == 1 {
+				seenMu.Lock()
+				seen[ab.Seq]++
+				seenMu.Unlock()
+			}
+			if r.Intn(10) < 7 {
+				rsp := vfEvent{T: "rptrsp", SEID: "1", Seq: ab.Seq}
+				vfNorm(&rsp)
+				b, err := en.x.build(&rsp)
+				if err == nil {
+					d := time.Duration(r.Intn(6000)) * time.Microsecond
+					time.AfterFunc(d, func() { _, _ = c.WriteToUDP(b, upf) })
+				}
+			}
+		}
+	}()
 	stopTicks := make(chan struct{}) // tickers are stopped by the periodic server itself before it closes
 	var tickWg sync.WaitGroup
 	var emitted int64
@@ -476,6 +517,8 @@ func vfConcurrent(en *vfStressEnv, s *vfScen, o *vfScenOut) {
 		err := st.stop(15 * time.Second)
 		close(stopAll)
 		wg.Wait()
+		close(respStop)
+		<-respDone
 		o.Stopped = err == nil
 		if err != nil {
 			full := vfDump()
@@ -499,19 +542,10 @@ func vfConcurrent(en *vfStressEnv, s *vfScen, o *vfScenOut) {
 	st.psSync(20 * time.Second)
 	time.Sleep(300 * time.Millisecond)
 	o.Emitted = int(atomic.LoadInt64(&emitted))
-	seen := map[int]int{}
-	for _, d := range en.nw.drain() {
-		if d[0] != "p1" {
-			continue
-		}
-		ab := en.x.abstract(d[0], []byte(d[1]))
-		if ab.MT == 56 && len(ab.DLDR) == 1 {
-			seen[ab.Seq]++
-		}
-	}
-	for _, c := range seen {
-		// retransmissions (millisecond timers) repeat a sequence number; distinct notifications have distinct numbers
-		_ = c
-	}
+	close(respStop)
+	<-respDone
+	// retransmissions (millisecond timers) repeat a sequence number; distinct notifications have distinct numbers
+	seenMu.Lock()
 	o.Delivered = len(seen)
+	seenMu.Unlock()
 }
